@@ -430,6 +430,10 @@ func serialise(ops []op) []byte {
 
 // ---- calls -------------------------------------------------------------------------------------
 
+// hung is set when a real call did not return: the stuck goroutine cannot be stopped (and may
+// allocate without bound), so the driver stops issuing calls, reports, and lets the process end.
+var hung bool
+
 func guard(f func()) (res string) {
 	done := make(chan string, 1)
 	go func() {
@@ -444,7 +448,8 @@ func guard(f func()) (res string) {
 	select {
 	case r := <-done:
 		return r
-	case <-time.After(10 * time.Second):
+	case <-time.After(5 * time.Second):
+		hung = true
 		return "timeout"
 	}
 }
@@ -749,7 +754,7 @@ func TestVerifPickle(t *testing.T) {
 		sc := bufio.NewScanner(f)
 		sc.Buffer(make([]byte, 1<<20), 1<<26)
 		var encs [][]byte
-		for sc.Scan() {
+		for sc.Scan() && !hung {
 			var c pCase
 			if json.Unmarshal(sc.Bytes(), &c) != nil {
 				continue
@@ -793,7 +798,7 @@ func TestVerifPickle(t *testing.T) {
 		if tier == "thorough" {
 			nm = 60000
 		}
-		for i := 0; i < nm && len(encs) > 0; i++ {
+		for i := 0; i < nm && len(encs) > 0 && !hung; i++ {
 			b := encs[rnd.Intn(len(encs))]
 			for k := rnd.Intn(3) + 1; k > 0; k-- {
 				b = mutate(rnd, b)
@@ -807,12 +812,15 @@ func TestVerifPickle(t *testing.T) {
 	}
 	// (2) the harness's own boundary and scaled values
 	for _, v := range ownValues(tier, rnd) {
+		if hung {
+			break
+		}
 		batch = append(batch, roundTrip(v))
 		flush("own", false, 8)
 		if rnd.Intn(4) == 0 {
 			var buf bytes.Buffer
 			if NewEncoder(&buf, PicklerFunc(vPickler)).Encode(v) == nil && buf.Len() < 4000 {
-				for k := 0; k < 20; k++ {
+				for k := 0; k < 20 && !hung; k++ {
 					if ev := decodeBytes(mutate(rnd, buf.Bytes()), "generic"); ev != nil {
 						batch = append(batch, ev)
 					}
@@ -828,7 +836,7 @@ func TestVerifPickle(t *testing.T) {
 	}
 	alphabet := []byte{opMARK, opSTOP, opMEMOIZE, opBINGET, opNONE, opNEWTRUE, opBININT1, opBININT2, opINT, opSHORT_BINUNICODE, opEMPTY_LIST, opAPPEND,
 		opAPPENDS, opEMPTY_TUPLE, opTUPLE1, opTUPLE2, opTUPLE3, opTUPLE, opEMPTY_DICT, opSETITEMS, opEMPTY_SET, opADDITEMS, opSTACK_GLOBAL, opNEWOBJ, 0, 1, '\n', 'a'}
-	for i := 0; i < nb; i++ {
+	for i := 0; i < nb && !hung; i++ {
 		b := make([]byte, rnd.Intn(24))
 		for j := range b {
 			if rnd.Intn(4) == 0 {
